@@ -97,7 +97,7 @@ func GenCfg(src *choice.Src, o Opts) *Cfg {
 		c.Meta.Functions = append(c.Meta.Functions, KV{g.fnName, g.fx("Fn")})
 	}
 	if src.Chance("version", 1, 6) {
-		c.Version = sp(choice.Pick(src, "versionv", []string{"0.4.0", "0.4.7", "1.0.0", "0.3.0", "1.2.9", "1.3.0", "2.1.0", "v1.1.0"}))
+		c.Version = sp(choice.Pick(src, "versionv", []string{"0.4.0", "0.4.7", "1.0.0", "0.3.0", "1.2.9", "1.3.0", "2.1.0"}))
 	}
 
 	// ---- parameters (DAG by creation order; names shuffled against that order)
@@ -210,9 +210,13 @@ func (g *genState) paramValue(i int, name string) Arg {
 		kinds = append(kinds, "todo")
 	}
 	if g.fnName != "" {
-		kinds = append(kinds, "fn")
+		kinds = append(kinds, "fn", "fnpattern")
 	}
+	forceFn := false
 	switch choice.Pick(src, "pkind", kinds) {
+	case "fnpattern":
+		// a function token in the middle of other chunks: 'worker-%fn("x")%'
+		forceFn = true
 	case "lit":
 		a := g.litArg()
 		if g.o.SimpleVals && a.Kind != "int" && a.Kind != "str" {
@@ -238,6 +242,7 @@ func (g *genState) paramValue(i int, name string) Arg {
 	// multi-chunk pattern
 	n := src.Range("nchunks", 2, 4)
 	var cs []Chunk
+	hasFn := false
 	for j := 0; j < n; j++ {
 		opts := []string{"lit", "pct"}
 		if i > 0 {
@@ -246,7 +251,18 @@ func (g *genState) paramValue(i int, name string) Arg {
 		if !g.o.NoEnv {
 			opts = append(opts, "env")
 		}
-		switch choice.Pick(src, "chunk", opts) {
+		if g.fnName != "" && !hasFn {
+			opts = append(opts, "fn")
+		}
+		pick := choice.Pick(src, "chunk", opts)
+		if forceFn && !hasFn && j == n-1 {
+			pick = "fn"
+		}
+		switch pick {
+		case "fn":
+			// at most one function chunk per parameter; its argument identifies the parameter
+			hasFn = true
+			cs = append(cs, Chunk{Kind: "fn", S: g.fnName, Def: name})
 		case "lit":
 			cs = append(cs, Chunk{Kind: "lit", S: choice.Pick(src, "chunklit", []string{":", "http://", "-", "a", " ", "say \"hi ", "5\" tall, ", "it's ", "(", "\\", "\""})})
 		case "pct":
